@@ -7,9 +7,18 @@ the spec through the public constructors only.  After every operation
              instance attribute of every commonroad object reachable from the scenario and the planning-problem set, incl. which
              attributes each state has and the goal-lanelet tables with their dict type) must equal the snapshot before, and the
              XML and protobuf exports (date stamp erased) must be byte-identical to the exports made before the first operation;
-  * CORRESPONDENCE   the abstract view (attribute lists of all states with value tokens, predictions, lanelets, lights, goal
-             tables) and the abstract answer of the operation (incl. what both written files contain) are compared with the Lean
-             model CR.Frame run on the same operation sequence; agreement of the hidden cache flags is recorded, not judged.
+  * CORRESPONDENCE   the abstract view (attribute lists of all states with value tokens, predictions, lanelets with successor /
+             predecessor lists, obstacle registries and light references, lights, planning problems with initial state, goal
+             attribute names and goal tables) and the abstract answer of the operation (incl. what both written files contain)
+             are compared with the Lean model CR.Frame run on the same operation sequence; agreement of the hidden cache flags
+             is recorded, not judged.  Explicit model operations: occupancy / state / occupancy-set queries, scenario-level
+             occupancy and state queries, find_lanelet_by_position / _by_shape, traffic-light state, is_reached / goal_reached
+             on own and foreign states (decisions per goal state are parameters, evaluated on a third copy of the scenario),
+             ==, hash, copy.copy, deepcopy, pickle, obstacles_by_position_intervals, map_obstacles_to_lanelets /
+             filter_obstacles_in_network, Lanelet.get_obstacles, dynamic_obstacle_by_time_step, the two merge queries,
+             draw + render, XML and protobuf export.  The generic `reads` remains for str/repr, obstacles_by_role_and_type,
+             signal_state_at_time_step, final_time_step, states_in_time_interval, geometric lanelet queries, range queries,
+             lanelets_in_proximity, find_most_likely_lanelet_by_state and the copying network constructors.
   At the end of a case the operated scenario is compared with an untouched twin built from the same spec (snapshot and a
   fixed set of probing queries).
 """
@@ -281,7 +290,8 @@ def gen_ops(r, spec, n=None, allow_draw=True):
     kinds = ["occ"] * 5 + ["state"] * 3 + ["occs"] * 3 + ["states_at", "occset", "occset", "find_pos", "find_pos", "find_shape", "proximity",
             "light", "light", "reached", "reached", "reached_own", "reached_own", "goal_reached", "eq", "eq", "hash", "hash", "copy", "deepcopy", "deepcopy", "pickle",
             "pickle", "write_xml", "write_xml", "write_pb", "write_pb", "write_pb", "str", "by_role", "by_interval", "signal", "lanelet_q",
-            "map_obstacles", "final_time", "traj_q", "net_copy", "lanelet_q", "most_likely"]
+            "map_obstacles", "final_time", "traj_q", "net_copy", "lanelet_q", "most_likely", "dyn_by_time", "dyn_by_time", "get_obstacles",
+            "map_obstacles", "by_interval"]
     if allow_draw:
         kinds += ["draw"]
     targets = ["scenario", "pps", "net"] + [["obstacle", i] for i in all_ids] + [["problem", p["id"]] for p in spec["problems"]]
@@ -375,13 +385,16 @@ def gen_ops(r, spec, n=None, allow_draw=True):
                 ops.append(["lanelet_q", r.choice(lids), r.choice(["contains", "interpolate", "orientation", "obstacles", "succ_range",
                                                                     "merge_succ", "merge_succ", "merge_pred", "pred_range", "dyn_by_time",
                                                                     "dyn_by_time", "dyn_by_time", "obstacles", "polygon", "distance"]), pts()])
+        elif k in ("dyn_by_time", "get_obstacles"):
+            if lids:
+                ops.append(["lanelet_q", r.choice(lids), "dyn_by_time" if k == "dyn_by_time" else "obstacles", pts()])
         elif k == "net_copy":
             ops.append(["net_copy", r.choice(["network", "list", "shape"])])
         elif k == "most_likely":
             if lids:
                 ops.append(["most_likely", [[20.0 * r.randint(0, 2) + 3.0625, 2.0625, _f(r, -1, 1)]]])
         elif k == "map_obstacles":
-            ops.append(["map_obstacles", r.choice(["map", "filter"])])
+            ops.append(["map_obstacles", r.choice(["map", "map", "filter"]), r.choice(["static", "static", "all"])])
     if not ops:
         ops.append(["occs", 0, None])
     return ops
@@ -404,6 +417,8 @@ def gen_case(ctx, tiny=False, allow_draw=True, recipe=None):
             ops = gen_ops(r, spec, allow_draw=allow_draw)
             q = r.choice(["merge_succ", "merge_succ", "merge_pred"])
             ops.insert(r.randint(0, len(ops)), ["lanelet_q", l["id"] if q == "merge_succ" else l["succ"][0], q, [[1.0625, 1.0625]]])
+            ops.insert(r.randint(0, len(ops)), ["map_obstacles", "map", "static"])
+            ops.insert(r.randint(0, len(ops)), ["lanelet_q", where, "dyn_by_time", [[r.randint(0, 80) / 16.0, 1.0]]])
             return {"spec": spec, "ops": ops}
         if recipe == "vvy":
             d = [d for d in spec["dynamic"] if d["pred"] and d["pred"]["kind"] == "traj" and d["pred"]["cls"] == "custom-vvy"]
@@ -952,7 +967,7 @@ def run_op(ctx, sc, pps, op, twin):
         sts = [KSState(time_step=0, position=np.array([a, b]), orientation=c) for a, b, c in op[1]]
         return [int(i) for i in net.find_most_likely_lanelet_by_state(sts)]
     if k == "map_obstacles":
-        obs = sc.static_obstacles + sc.dynamic_obstacles
+        obs = sc.static_obstacles + (sc.dynamic_obstacles if len(op) > 2 and op[2] == "all" else [])
         if op[1] == "map":
             return {str(a): [o.obstacle_id for o in b] for a, b in net.map_obstacles_to_lanelets(obs).items()}
         return [o.obstacle_id for o in net.filter_obstacles_in_network(obs)]
@@ -1336,7 +1351,7 @@ def model_op(op, P, spy, env):
                 inside.append(o.obstacle_id)
         return ["byIntervals", op[3], inside], "same"
     if k == "map_obstacles":
-        obs = sc.static_obstacles + sc.dynamic_obstacles
+        obs = sc.static_obstacles + (sc.dynamic_obstacles if len(op) > 2 and op[2] == "all" else [])
         return ["mapObstacles", [o.obstacle_id for o in obs], _rel(twin[0], sc.lanelet_network.lanelets, obs, 0)], "mapping-" + op[1]
     if k == "lanelet_q" and op[2] == "obstacles":
         t = int(op[3][0][0] * 16) % 3
